@@ -702,6 +702,7 @@ func runMain(args []string) error {
 	results := make([]*obsRec, len(cases))
 	var firstErr error
 	var mu sync.Mutex
+	var solo sync.RWMutex
 	var wg sync.WaitGroup
 	for k := 0; k < par; k++ {
 		wg.Add(1)
@@ -711,18 +712,34 @@ func runMain(args []string) error {
 				var o obsRec
 				var err error
 				// A launch that does not start is tried again: under load the container's own 3 s
-				// ping deadline and transient clone/exec errors hit; a failure the code produces
-				// deterministically for this table stays and is reported with its last error.
-				for attempt := 0; attempt < 3; attempt++ {
+				// ping deadline and transient clone/exec errors hit.  From the third attempt on the
+				// launch runs alone (no other sandbox of this driver is being set up meanwhile).  A
+				// failure the code produces deterministically for this table stays and is reported
+				// with its last error.
+				for attempt := 0; attempt < 6; attempt++ {
+					if attempt >= 2 {
+						solo.Lock()
+						time.Sleep(time.Duration(attempt) * 300 * time.Millisecond)
+					} else {
+						solo.RLock()
+					}
 					if j.c.Impl == "fork" {
 						o, err = e.runFork(j.c)
 					} else {
 						o, err = e.runCont(j.c)
 					}
+					if attempt >= 2 {
+						solo.Unlock()
+					} else {
+						solo.RUnlock()
+					}
 					if err == nil && o.Started {
 						break
 					}
 					o.Attempts = attempt + 1
+					if err == nil && o.Phase != "build" && attempt >= 2 {
+						break // the sandbox's own mount block failed three times: deterministic
+					}
 				}
 				mu.Lock()
 				if err != nil && firstErr == nil {
